@@ -12,7 +12,7 @@ log = open("/tmp/wt/confirm_all.log").read() if os.path.exists("/tmp/wt/confirm_
 for prop in sorted(os.listdir(SRC)):
     if not os.path.isdir(os.path.join(SRC, prop)) or re.fullmatch(r"B\d", prop):      # B<n> are the property-preserving changes (tools/import_benign.py)
         continue
-    labels = ("A", "B", "C", "D", "E", "F") if prop != "OWN" else sorted(os.listdir(os.path.join(SRC, prop)))
+    labels = ("A", "B", "C", "D", "E", "F", "G", "H") if prop != "OWN" else sorted(os.listdir(os.path.join(SRC, prop)))
     for x in labels:
         d = os.path.join(SRC, prop, x)
         if not os.path.exists(os.path.join(d, "patch.diff")):
